@@ -215,7 +215,7 @@ def check_on_policy_end_to_end(ctx):
     a rollout collected by the real algorithm with the real MLPActorCriticPolicy (all action-space kinds,
     clipping active on bounded boxes, non-unit std), then the real PPO loss with the unchanged policy."""
     from .common.realpolicy import reevaluation_cases
-    for c in reevaluation_cases(ctx, ctx.budget(7, 28)):
+    for c in reevaluation_cases(ctx, ctx.budget(10, 30)):
         flat, policy = c["flat"], c["policy"]
         flat = eqx.tree_at(lambda b: (b.returns, b.advantages), flat,
                            (jnp.zeros_like(flat.rewards), jnp.ones_like(flat.rewards)), is_leaf=lambda x: x is None)
